@@ -26,7 +26,13 @@ R15.3 persistence: every key written by ``save`` is dispatched by ``_load``
       lines are split at the first '=' only, the float format keeps >= 17
       significant digits; an identifier read from a file is replaced only
       when the registry scan finds an instance that has it, and the
-      allocator ends above every identifier assigned (executed).
+      allocator ends above every identifier assigned (executed); the lines
+      save() writes, rendered for a table of sample names ('=', '#', ';',
+      brackets, quotes, key words), are executed through the statements
+      _load applies to a section's lines before and in the key dispatch:
+      no line dropped / mis-split / mis-dispatched, the name unchanged.
+      (R15.2 also: the `points` property hands out a fresh or read-only
+      array, never the stored vertex buffer.)
 """
 from __future__ import annotations
 
@@ -73,7 +79,59 @@ class _NoEval(Exception):
     pass
 
 
+class _RuntimeFail(_NoEval):
+    """the evaluated code itself raises (e.g. unpacking mismatch)"""
+
+
+def _comp(e, env, k=0):
+    """values of a list comprehension / generator expression"""
+    if k == len(e.generators):
+        yield ev(e.elt, env)
+        return
+    g = e.generators[k]
+    if g.is_async:
+        raise _NoEval(txt(e))
+    seq = ev(g.iter, env)
+    if not isinstance(seq, (list, tuple, str)):
+        raise _NoEval(txt(g.iter))
+    for item in seq:
+        sub = dict(env)
+        _bind(g.target, item, sub)
+        if all(ev(c, sub) for c in g.ifs):
+            yield from _comp(e, sub, k + 1)
+
+
+def _bind(target, value, env):
+    if isinstance(target, ast.Name):
+        env[target.id] = value
+    elif isinstance(target, (ast.Tuple, ast.List)) and not any(
+            isinstance(t, ast.Starred) for t in target.elts):
+        if not isinstance(value, (list, tuple)):
+            raise _NoEval(txt(target))
+        if len(value) != len(target.elts):
+            raise _RuntimeFail(
+                f"ValueError: {len(value)} values {value!r} for the "
+                f"{len(target.elts)} names `{txt(target)}`")
+        for t, v in zip(target.elts, value):
+            _bind(t, v, env)
+    elif isinstance(target, ast.Attribute):
+        env[txt(target)] = value
+    else:
+        raise _NoEval(txt(target))
+
+
+_STR_METHODS = ("lower", "upper", "strip", "startswith", "endswith",
+                "casefold", "lstrip", "rstrip", "split", "rsplit",
+                "partition", "rpartition", "replace", "splitlines", "find",
+                "rfind", "count", "isspace", "isdigit", "title",
+                "capitalize", "expandtabs", "removeprefix", "removesuffix")
+
+
 def ev(e, env):
+    if "__subst__" in env and id(e) in env["__subst__"]:
+        return env["__subst__"][id(e)]
+    if isinstance(e, (ast.ListComp, ast.GeneratorExp)):
+        return list(_comp(e, env))
     if isinstance(e, ast.Constant):
         if isinstance(e.value, (bool, int, str)):
             return e.value
@@ -171,9 +229,11 @@ def ev(e, env):
         if isinstance(e.slice, ast.Slice):
             lo = ev(e.slice.lower, env) if e.slice.lower else None
             hi = ev(e.slice.upper, env) if e.slice.upper else None
-            if e.slice.step is not None:
+            st = ev(e.slice.step, env) if e.slice.step else None
+            try:
+                return base[lo:hi:st]
+            except (TypeError, ValueError):
                 raise _NoEval(txt(e))
-            return base[lo:hi]
         try:
             return base[ev(e.slice, env)]
         except (IndexError, KeyError, TypeError):
@@ -195,16 +255,31 @@ def ev(e, env):
                         "str": str}[e.func.id](v)
             except (TypeError, ValueError):
                 raise _NoEval(txt(e))
-        if isinstance(e.func, ast.Attribute) and e.func.attr in (
-                "lower", "upper", "strip", "startswith", "endswith",
-                "casefold", "lstrip", "rstrip") and not e.keywords:
+        if isinstance(e.func, ast.Name) and e.func.id in (
+                "list", "tuple") and len(e.args) == 1 and not e.keywords:
+            v = ev(e.args[0], env)
+            if isinstance(v, (list, tuple)):
+                return list(v)
+            raise _NoEval(txt(e))
+        if isinstance(e.func, ast.Attribute) and e.func.attr in _STR_METHODS \
+                and all(k.arg in ("maxsplit", "sep", "chars", "keepends")
+                        for k in e.keywords):
             recv = ev(e.func.value, env)
             if isinstance(recv, str):
                 args = [ev(a, env) for a in e.args]
+                kws = {k.arg: ev(k.value, env) for k in e.keywords}
                 try:
-                    return getattr(recv, e.func.attr)(*args)
-                except TypeError:
+                    r = getattr(recv, e.func.attr)(*args, **kws)
+                except (TypeError, ValueError, AttributeError):
                     raise _NoEval(txt(e))
+                return list(r) if isinstance(r, tuple) else r
+        if isinstance(e.func, ast.Attribute) and e.func.attr == "join" \
+                and len(e.args) == 1 and not e.keywords:
+            recv = ev(e.func.value, env)
+            items = ev(e.args[0], env)
+            if isinstance(recv, str) and isinstance(items, list) and all(
+                    isinstance(x, str) for x in items):
+                return recv.join(items)
     raise _NoEval(txt(e))
 
 
@@ -1294,6 +1369,153 @@ def _copy_inversion(ctx, repo):
            node=rets[0], label="copy geometry", nontrivial=False)
 
 
+_NP_MAY_ALIAS = ("asarray", "asanyarray", "ascontiguousarray",
+                 "asfortranarray", "atleast_1d", "atleast_2d", "atleast_3d",
+                 "squeeze", "reshape", "ravel", "transpose", "require",
+                 "real", "flipud", "fliplr", "swapaxes", "moveaxis")
+_METH_MAY_ALIAS = ("view", "reshape", "ravel", "squeeze", "transpose",
+                   "swapaxes", "__array__")
+
+
+def _copy_flag(call, what):
+    """True / False for the literal `copy=` keyword of a call (default
+    True)"""
+    kws = [k for k in call.keywords if k.arg == "copy"]
+    if any(k.arg is None for k in call.keywords):
+        raise AnalysisError(f"{what}: **keywords in `{short(call, 40)}`")
+    if not kws:
+        return True
+    v = kws[0].value
+    if isinstance(v, ast.Constant) and v.value in (True, False, None):
+        return v.value is True
+    raise AnalysisError(f"{what}: copy= of `{short(call, 40)}` is not a "
+                        "literal")
+
+
+def _aliases_field(func, e, raw, depth=0):
+    """(aliases, node): may the array `e` evaluates to share its memory with
+    the ndarray stored in self.<raw>?  Decided for numpy conversion idioms;
+    anything else that mentions the field is not classified."""
+    what = f"PolygonFilter.{func.name}"
+    if depth > 8:
+        raise AnalysisError(f"{what}: definition chain too deep")
+    e = deref(func, e)
+    if is_self_attr(e, raw):
+        return True, e
+    if f"self.{raw}" not in txt(e) and not (
+            names_in(e) - {"self", "np", "numpy"}):
+        return False, e
+    if isinstance(e, ast.IfExp):
+        a = _aliases_field(func, e.body, raw, depth + 1)
+        b = _aliases_field(func, e.orelse, raw, depth + 1)
+        return a if a[0] else b
+    if isinstance(e, ast.Attribute) and e.attr in ("T", "real", "base"):
+        return _aliases_field(func, e.value, raw, depth + 1)
+    if isinstance(e, ast.Subscript):
+        return _aliases_field(func, e.value, raw, depth + 1)
+    if isinstance(e, ast.Call):
+        name = call_name(e) or ""
+        mod, _, tail = name.rpartition(".")
+        if mod in ("np", "numpy"):
+            arg = e.args[0] if e.args else None
+            if arg is None:
+                kw = [k.value for k in e.keywords
+                      if k.arg in ("a", "object", "arr")]
+                arg = kw[0] if kw else None
+            if arg is None:
+                raise AnalysisError(f"{what}: `{short(e, 40)}`")
+            if tail == "array":
+                if len(e.args) > 2:
+                    raise AnalysisError(f"{what}: positional arguments of "
+                                        f"`{short(e, 40)}`")
+                if _copy_flag(e, what):
+                    return False, e
+                sub = _aliases_field(func, arg, raw, depth + 1)
+                return (sub[0], e)
+            if tail == "copy":
+                return False, e
+            if tail in _NP_MAY_ALIAS:
+                sub = _aliases_field(func, arg, raw, depth + 1)
+                return (sub[0], e)
+            raise AnalysisError(f"{what}: numpy call `{short(e, 40)}` not "
+                                "classified (copy or view?)")
+        if isinstance(e.func, ast.Attribute):
+            meth = e.func.attr
+            if meth in ("copy", "tolist", "tobytes", "__deepcopy__"):
+                return False, e
+            if meth == "astype":
+                if _copy_flag(e, what):
+                    return False, e
+                sub = _aliases_field(func, e.func.value, raw, depth + 1)
+                return (sub[0], e)
+            if meth in _METH_MAY_ALIAS:
+                sub = _aliases_field(func, e.func.value, raw, depth + 1)
+                return (sub[0], e)
+        if name in ("copy.copy", "copy.deepcopy", "list"):
+            return False, e
+    raise AnalysisError(f"{what}: `{short(e, 40)}` is not classified as a "
+                        "copy or a view of the stored vertices")
+
+
+def _handed_out(getter, value, raw):
+    """('fresh' | 'readonly' | 'alias', node) for the value a property
+    returns, with respect to the backing field self.<raw>"""
+    what = f"PolygonFilter.{getter.name}"
+    if isinstance(value, ast.Name):
+        # made read-only unconditionally before it is returned
+        locked = False
+        for st in getter.body:
+            if isinstance(st, ast.Assign) and len(st.targets) == 1 and txt(
+                    st.targets[0]) == f"{value.id}.flags.writeable":
+                if not (isinstance(st.value, ast.Constant)
+                        and st.value.value in (True, False)):
+                    raise AnalysisError(f"{what}: `{short(st, 40)}`")
+                locked = st.value.value is False
+            elif isinstance(st, ast.Expr) and isinstance(
+                    st.value, ast.Call) and txt(
+                    st.value.func) == f"{value.id}.setflags":
+                w = kwarg(st.value, "write", 0)
+                if not (isinstance(w, ast.Constant)
+                        and w.value in (True, False, 0, 1)):
+                    raise AnalysisError(f"{what}: `{short(st, 40)}`")
+                locked = not w.value
+        if locked:
+            return "readonly", value
+        binds = single_assign(getter, value.id)
+        if len(binds) > 1:
+            # re-bound local: each binding is a conversion of the previous
+            # one or of the field; alias if the chain never copies
+            if any(getattr(b, "parent", None) not in getter.body
+                   for b in binds):
+                raise AnalysisError(f"{what}: `{value.id}` is re-bound "
+                                    "under a condition")
+            alias = False
+            for b in binds:
+                if value.id in names_in(b):
+                    # shares memory with the field iff the previous value
+                    # did and this conversion does not copy
+                    a, _ = _aliases_field(
+                        getter, _subst(b, value.id, raw), raw)
+                    alias = alias and a
+                else:
+                    alias, _ = _aliases_field(getter, b, raw)
+            return ("alias" if alias else "fresh"), binds[-1]
+    a, node = _aliases_field(getter, value, raw)
+    return ("alias" if a else "fresh"), node
+
+
+def _subst(expr, name, raw):
+    """expr with the local `name` replaced by self.<raw>"""
+    class _S(ast.NodeTransformer):
+        def visit_Name(self, n):
+            if n.id == name and isinstance(n.ctx, ast.Load):
+                return ast.copy_location(ast.Attribute(
+                    value=ast.Name(id="self", ctx=ast.Load()), attr=raw,
+                    ctx=ast.Load()), n)
+            return n
+    return ast.fix_missing_locations(_S().visit(copy.deepcopy(expr)))
+
+
 def _normalised_vertices(ctx, repo):
     """the vertices are only read through the `points` property (always a
     float array); the raw backing field may hold nested lists (setter,
@@ -1316,16 +1538,35 @@ def _normalised_vertices(ctx, repo):
         raise AnalysisError("PolygonFilter.points setter: backing field")
     raw = stored[0]
     rets = [n for n in walk(getter) if isinstance(n, ast.Return)]
-    normal = len(rets) == 1 and isinstance(rets[0].value, ast.Call) and (
-        call_name(rets[0].value) or "").split(".")[-1] in (
-        "array", "asarray", "ascontiguousarray") and raw in txt(
-        rets[0].value)
+    normal = len(rets) == 1 and rets[0].value is not None and any(
+        isinstance(c_, ast.Call) and (call_name(c_) or "").split(".")[-1] in (
+            "array", "asarray", "ascontiguousarray") and raw in txt(c_)
+        for v_ in ([rets[0].value] + [
+            b_ for nm_ in sorted(names_in(rets[0].value) - {"self"})
+            for b_ in single_assign(getter, nm_)])
+        for c_ in ast.walk(v_))
     ctx.ob("R15.2", normal,
            f"the `points` property returns the backing field `{raw}` as an "
            "array" if normal else
            "the `points` property no longer normalises the stored vertices "
            "to an array", node=getter, label="points property normalises",
            nontrivial=False)
+    # what the property hands out cannot be used to rewrite the filter:
+    # a fresh array on every access, or an array that is made read-only
+    if len(rets) == 1 and rets[0].value is not None:
+        kind, via = _handed_out(getter, rets[0].value, raw)
+        ctx.ob("R15.2", kind in ("fresh", "readonly"),
+               "the `points` property hands out "
+               + ("a fresh array" if kind == "fresh" else "a read-only array")
+               + f" (`{short(via, 40)}`): editing it cannot rewrite the filter"
+               if kind in ("fresh", "readonly") else
+               f"the `points` property hands out the filter's own vertex "
+               f"buffer (`{short(via, 40)}` does not copy an ndarray stored "
+               f"in `self.{raw}`): a caller that edits the returned array in "
+               "place (rescaling the vertices for a second filter) rewrites "
+               "this filter's polygon, its hash and what save() writes",
+               node=getter, key=f"{POLY}::PolygonFilter.points::vertices "
+               "handed out do not alias the stored buffer")
     # new vertices are stored unconditionally or under an exact comparison
     TOL = ("allclose", "isclose", "round", "around", "rint", "assert_allclose")
     loose = None
@@ -2260,6 +2501,235 @@ def r153(ctx, repo):
            "'=' makes the whole file unloadable (ValueError: too many "
            "values to unpack)", node=(spl or parts_)[0],
            label="split at first '='")
+    _reader_writer_lines(ctx, load, disp, disp_shape, VAR, VAL, keyed,
+                         handlers)
+
+
+# names a user may give to a filter: the characters that mean something to
+# line-based / INI-like readers ('=', '#', ';', ':', brackets, quotes, the
+# keys of the format itself).  No leading / trailing blanks and no line
+# breaks: those are declared limits of the format (ASSUMPTIONS).
+_SAMPLE_NAMES = (
+    "polygon filter 3", "gate #2", "#3", "a = b", "a=b=c", "= leading",
+    "trailing =", "x;y", "; note", "RBC = area>50 #dense [v2]", "[gate 1]",
+    "two  blanks", "100 % {deform}", "it's \"quoted\"", "Point 3",
+    "point00000001 = 1 2", "Inverted", "X Axis = area_um", "Name",
+    "// c-style", "!bang", "key: value", "tab\tinside", "back\\slash",
+    "dash-minus_under.dot,comma", "äöü µm", "")
+
+
+def _flat_stmts(stmts):
+    for st in stmts:
+        if isinstance(st, ast.With):
+            yield from _flat_stmts(st.body)
+        else:
+            yield st
+
+
+def _render(parts, values):
+    """the text a line template produces for sample field values"""
+    out = []
+    for p in parts:
+        if isinstance(p, str):
+            out.append(p)
+            continue
+        v = values(p)
+        if p.conv == "r":
+            v = repr(v)
+        elif p.conv == "s":
+            v = str(v)
+        elif p.conv == "a":
+            v = ascii(v)
+        try:
+            out.append(format(v, p.spec or ""))
+        except (ValueError, TypeError) as e:
+            raise AnalysisError(f"save: sample for field "
+                                f"`{txt(p.expr)}:{p.spec}`: {e}")
+    return "".join(out)
+
+
+def _reader_writer_lines(ctx, load, disp, shape, VAR, VAL, keyed, handlers):
+    """every line save() writes for a section – rendered for sample values –
+    is taken through the statements _load applies to the section's lines
+    before the key dispatch (parsed code, executed on the concrete lines):
+    no line may be dropped, split into a wrong number of items or reach
+    another handler, and the free-form value (the name) must arrive
+    unchanged"""
+    what = "PolygonFilter._load"
+    pre, branches, else_body = shape
+    # the lines of one section: <all lines>[start:end]
+    def _is_lines(v):
+        return any(isinstance(c, ast.Call) and last_attr(c) in (
+            "readlines", "splitlines") for c in ast.walk(v))
+    cands = []
+    for n in walk(load):
+        if isinstance(n, ast.Subscript) and isinstance(n.slice, ast.Slice) \
+                and n.slice.lower is not None and n.slice.upper is not None \
+                and isinstance(n.value, ast.Name):
+            b = single_assign_loose(load, n.value.id)
+            if len(b) == 1 and _is_lines(b[0]):
+                cands.append(n)
+    if len(cands) != 1:
+        raise AnalysisError(f"{what}: slice of the section's lines not "
+                            f"identified ({len(cands)} candidates)")
+    section = cands[0]
+    stmts = list(_flat_stmts(load.body))
+    if disp not in stmts:
+        raise AnalysisError(f"{what}: dispatch loop is nested")
+    i1 = stmts.index(disp)
+    i0 = [i for i, st in enumerate(stmts)
+          if any(x is section for x in ast.walk(st))]
+    if len(i0) != 1 or i0[0] > i1:
+        raise AnalysisError(f"{what}: section slice not before the dispatch")
+    steps = stmts[i0[0]:i1]
+
+    name_key = [k for k, h in handlers.items() if any(
+        isinstance(p, Field) and txt(p.expr) == "self.name" for p in h[3])]
+    if len(name_key) != 1:
+        raise AnalysisError("save: line that carries self.name")
+    name_key = name_key[0]
+
+    def run_section(lines):
+        """[(branch index, env)] for the items reaching the dispatch"""
+        env = {"__subst__": {id(section): list(lines)}}
+        tainted = set()
+        for st in steps:
+            pairs = None
+            if isinstance(st, ast.Assign) and len(st.targets) == 1:
+                t = st.targets[0]
+                if isinstance(t, ast.Name):
+                    pairs = [(t, st.value)]
+                elif isinstance(t, ast.Tuple) and isinstance(
+                        st.value, ast.Tuple) and len(t.elts) == len(
+                        st.value.elts) and all(isinstance(x, ast.Name)
+                                               for x in t.elts):
+                    pairs = list(zip(t.elts, st.value.elts))
+            uses = any(x is section for x in ast.walk(st)) or (
+                names_in(st) & tainted)
+            if pairs is None:
+                if uses:
+                    raise AnalysisError(
+                        f"{what}: step `{short(st, 50)}` applied to the "
+                        "section's lines is not understood")
+                continue
+            for t, v in pairs:
+                dep = any(x is section for x in ast.walk(v)) or (
+                    names_in(v) & tainted)
+                if not dep:
+                    if t.id in tainted:
+                        raise AnalysisError(f"{what}: `{t.id}` re-bound")
+                    continue
+                try:
+                    env[t.id] = ev(v, env)
+                except _RuntimeFail:
+                    raise
+                except _NoEval as e:
+                    raise AnalysisError(
+                        f"{what}: step `{short(st, 50)}` applied to the "
+                        f"section's lines is not understood ({e})")
+                tainted.add(t.id)
+        try:
+            items = ev(disp.iter, env)
+        except _RuntimeFail:
+            raise
+        except _NoEval as e:
+            raise AnalysisError(f"{what}: lines iterated by the dispatch "
+                                f"loop ({e})")
+        if not isinstance(items, list):
+            raise AnalysisError(f"{what}: lines iterated by the dispatch")
+        out = []
+        for item in items:
+            e2 = {}
+            _bind(disp.target, item, e2)
+            try:
+                _exec(pre, e2)
+                which = None
+                for i, (test, body) in enumerate(branches):
+                    if ev(test, e2):
+                        which = i
+                        break
+            except _RuntimeFail:
+                raise
+            except _NoEval as e:
+                raise AnalysisError(f"{what}: dispatch of a sample line "
+                                    f"({e})")
+            out.append((which, e2))
+        return out
+
+    def sample_value(name):
+        def values(field):
+            src = txt(field.expr)
+            if src == "self.name":
+                return name
+            if src.startswith("self.axes["):
+                return "area_um" if src.endswith("[0]") else "deform"
+            if src == "self.inverted":
+                return True
+            if re.fullmatch(r"0?\d*d", field.spec or "-"):
+                return 3
+            return 0.012345678901234568
+        return values
+
+    branch_of = {k: [i for i, (t_, b_) in enumerate(branches)
+                     if b_ is h[0]] for k, h in handlers.items()}
+    if any(len(v) != 1 for v in branch_of.values()):
+        raise AnalysisError(f"{what}: handler branches")
+    bad = None
+    for name in _SAMPLE_NAMES:
+        vals = sample_value(name)
+        written = [(literal_of(k).strip(), _render(k + ["="] + v, vals) + "\n")
+                   for _, k, v in keyed]
+        lines = [ln for _, ln in written]
+        try:
+            got = run_section(lines)
+        except _RuntimeFail as e:
+            bad = (f"a filter named {name!r} is saved as "
+                   f"{_render(handlers[name_key][2] + ['='] + handlers[name_key][3], vals)!r}"
+                   f"; _load fails on this section ({e})")
+            break
+        if len(got) != len(lines):
+            bad = (f"a section of {len(lines)} lines written for a filter "
+                   f"named {name!r} reaches the key dispatch of _load as "
+                   f"{len(got)} items: a line is dropped or split before "
+                   "it is parsed")
+            break
+        for (key, line), (which, e2) in zip(written, got):
+            if key not in handlers:
+                continue
+            if which != branch_of[key][0]:
+                bad = (f"the line {line!r} written by save (filter named "
+                       f"{name!r}) is "
+                       + ("not recognised by any branch" if which is None
+                          else "dispatched to the branch "
+                          f"`{short(branches[which][0], 40)}`")
+                       + f" after the line preparation of _load "
+                       f"({VAR}={e2.get(VAR)!r})")
+                break
+            if key == name_key:
+                try:
+                    _exec(handlers[key][0], e2)
+                except _NoEval as e:
+                    raise AnalysisError(f"{what}: name handler ({e})")
+                if "self.name" not in e2:
+                    raise AnalysisError(f"{what}: name handler does not "
+                                        "assign self.name")
+                if e2["self.name"] != name:
+                    bad = (f"a filter named {name!r} is saved as {line!r} "
+                           f"and loaded with the name {e2['self.name']!r}: "
+                           "the statements _load applies to a line before "
+                           "the key dispatch do not preserve the value "
+                           "written by save")
+                    break
+        if bad:
+            break
+    ctx.ob("R15.3", bad is None,
+           f"the lines save() writes for {len(_SAMPLE_NAMES)} sample names "
+           "(with '=', '#', ';', ':', brackets, quotes, key words of the "
+           "format) pass the line preparation of _load one to one, reach "
+           "their handler and return the name unchanged (parsed code "
+           "executed)" if bad is None else bad,
+           node=disp, key=f"{POLY}::PolygonFilter._load::written lines are "
+           "read back unchanged")
 
 
 def _unique_id_rule(ctx, repo):
@@ -2500,8 +2970,11 @@ def _exec(stmts, env):
             _exec(s.body if ev(s.test, env) else s.orelse, env)
         elif isinstance(s, ast.Assign) and len(s.targets) == 1:
             t = s.targets[0]
-            k = txt(t)
-            env[k] = ev(s.value, env)
+            if isinstance(t, (ast.Tuple, ast.List)):
+                _bind(t, ev(s.value, env), env)
+            else:
+                k = txt(t)
+                env[k] = ev(s.value, env)
         elif isinstance(s, ast.Pass):
             pass
         else:
@@ -2604,11 +3077,14 @@ def run(ctx):
              "consistently through every wrapper in a float64 buffer; "
              "inversion iff self.inverted (filter and copy); vertices read "
              "through the normalising property; filter() stateless; cache "
-             "digests cover the classification inputs (logical array order)",
-             minimum=26)
+             "digests cover the classification inputs (logical array order); "
+             "the vertex property hands out a copy / read-only array",
+             minimum=27)
     ctx.rule("R15.3", "save/_load agree on keys, attribute mapping, header "
-             "and index parsing, first-'=' split; >= 17 significant digits",
-             minimum=30)
+             "and index parsing, first-'=' split; >= 17 significant digits; "
+             "the written lines, rendered for sample names, are read back "
+             "one to one by the parsed line preparation of _load",
+             minimum=31)
     r151(ctx, repo)
     r152(ctx, repo)
     r153(ctx, repo)
@@ -2685,6 +3161,36 @@ MUTANTS = [
     ("python wrapper swaps its arguments", PNPY,
      ("return _points_in_poly(points, verts)",
       "return _points_in_poly(verts, points)"), "R15.2"),
+    ("points property hands out the stored vertex buffer", POLY,
+     ("        return np.array(self._points)\n",
+      "        return np.asarray(self._points)\n"), "R15.2"),
+    ("points property converts with copy=False", POLY,
+     ("        return np.array(self._points)\n",
+      "        pts = np.array(self._points, dtype=float, copy=False)\n"
+      "        return pts\n"), "R15.2"),
+    ("points property returns a writeable view", POLY,
+     ("        return np.array(self._points)\n",
+      "        return np.atleast_2d(np.asarray(self._points)).view()\n"),
+     "R15.2"),
+    ("_load cuts every line at the first '#' (comment tolerance)", POLY,
+     ("        subdata = data[start:end]\n",
+      "        subdata = data[start:end]\n"
+      "        subdata = [li.split(\"#\", 1)[0] for li in subdata]\n"
+      "        subdata = [li for li in subdata if li.strip()]\n"), "R15.3"),
+    ("_load removes ';' remarks after the key/value split", POLY,
+     ("        subdata = [[it.strip() for it in li.split(\"=\", 1)] "
+      "for li in subdata]\n",
+      "        subdata = [[it.partition(\";\")[0].strip() for it in "
+      "li.split(\"=\", 1)] for li in subdata]\n"), "R15.3"),
+    ("_load skips lines that look like a stray section head", POLY,
+     ("        subdata = data[start:end]\n",
+      "        subdata = [li for li in data[start:end] if \"[\" not in li]"
+      "\n"), "R15.3"),
+    ("_load strips quotes around the value", POLY,
+     ("        subdata = [[it.strip() for it in li.split(\"=\", 1)] "
+      "for li in subdata]\n",
+      "        subdata = [[it.strip().strip(\"'\\\"\") for it in "
+      "li.split(\"=\", 1)] for li in subdata]\n"), "R15.3"),
     ("filter columns swapped", POLY,
      [("        points[:, 0] = datax\n", "        points[:, 0] = datay\n"),
       ("        points[:, 1] = datay\n", "        points[:, 1] = datax\n")],
@@ -2924,6 +3430,31 @@ TWINS = [
        "        mask[start:stop] = _points_in_poly(points[start:stop], "
        "verts)\n"
        "    return mask\n")]),
+    ("points property: asarray followed by an explicit copy", POLY,
+     ("        return np.array(self._points)\n",
+      "        pts = np.asarray(self._points)\n"
+      "        return pts.copy()\n")),
+    ("points property: copy keyword spelled out", POLY,
+     ("        return np.array(self._points)\n",
+      "        return np.array(self._points, copy=True)\n")),
+    ("points property: read-only view of the stored vertices", POLY,
+     ("        return np.array(self._points)\n",
+      "        pts = np.asarray(self._points).view()\n"
+      "        pts.flags.writeable = False\n"
+      "        return pts\n")),
+    ("_load skips blank lines before the key/value split", POLY,
+     ("        subdata = data[start:end]\n",
+      "        subdata = data[start:end]\n"
+      "        subdata = [li for li in subdata if li.strip()]\n")),
+    ("_load separates key and value with partition", POLY,
+     ("        subdata = [[it.strip() for it in li.split(\"=\", 1)] "
+      "for li in subdata]\n",
+      "        subdata = [[it.strip() for it in li.partition(\"=\")[::2]] "
+      "for li in subdata]\n")),
+    ("_load strips the line ends in a separate pass", POLY,
+     ("        subdata = data[start:end]\n",
+      "        lines = [li.rstrip(\"\\r\\n\") for li in data[start:end]]\n"
+      "        subdata = lines\n")),
     ("vertices bound to a local before the containment test", POLY,
      ("        f = points_in_poly(points=points, verts=self.points)\n",
       "        verts = self.points\n"
